@@ -124,6 +124,7 @@ func genC14(r *Rng, tier string) *World {
 	}
 	w.Schemas = []*Node{root}
 	// the logical record
+	scalarLists := false
 	var rec func(n *Node) (Val, bool)
 	rec = func(n *Node) (Val, bool) {
 		switch n.Kind {
@@ -175,6 +176,11 @@ func genC14(r *Rng, tier string) *World {
 			return l, true
 		default:
 			x := r.Float()
+			if fam == "flat" && !goStruct && r.P(0.04) {
+				// two values for a field that holds one (a parameter sent twice): every front end hands over the same list
+				scalarLists = true
+				return VL(genTyped(r, n.Kind), genTyped(r, n.Kind)), true
+			}
 			switch {
 			case x < 0.2:
 				return Val{}, false
@@ -270,7 +276,7 @@ func genC14(r *Rng, tier string) *World {
 	fronts := []string{"map", "zjson", "zhttp_json"}
 	if fam != "nested-json" {
 		fronts = append(fronts, "zhttp_form", "zhttp_query")
-		if !hasSlice {
+		if !hasSlice && !scalarLists {
 			fronts = append(fronts, "zenv")
 		}
 	}
